@@ -167,7 +167,7 @@ theorem pySetItem_list_mid (A B : List PV) (x y : PV) :
 /-- `l[-1] = y` right after `l.append(x)`. -/
 theorem pySetItem_list_append_singleton_neg_one (l : List PV) (x y : PV) :
     pySetItem (.list (l ++ [x])) (.int (-1)) y = .ok (.list (l ++ [y])) := by
-  simp [pySetItem, normIndex_neg_one (n := l.length + 1) (by omega)]
+  simp [pySetItem, pySetItemSeq, normIndex_neg_one (n := l.length + 1) (by omega)]
 
 /-- `fragments[i]` on a tuple of strings. -/
 theorem pyIndex_tup_strs {l : List (List Char)} {i : Nat} (h : i < l.length) :
